@@ -176,7 +176,7 @@ func c02Malformed(c *mon.Ctx, A *signedTok, name string, pk crypto.PublicKey) {
 }
 
 func runC02(c *mon.Ctx) {
-	c.Rule("for each of ES256/384/512, EdDSA, PS256/384/512 with fresh keys x valid claims-sets of both profiles and a P2 extension, the token produced by the real ValidateAndSign is (1) accepted unmodified under the signer's key (positive control), then attacked - each mutant once through a fresh DecodeEvidenceFromCOSE and once through ONE REUSED Evidence object that has just decoded and verified the original token - with: every single-bit flip; every truncation; 1-8 trailing bytes; splices of protected/payload/signature between two tokens (same key/other payload, other key, other algorithm); signature := random bytes (same / other length), zeros, empty, signature of another message; 2-8 random byte substitutions, random insertions and deletions; algorithm moved to the unprotected header with a signature that is valid for that layout; empty protected header; protected header without label 1; nil payload with a signature valid over the empty payload; signature := well-formed DER ECDSA signatures (of nothing, of random integers, of another message); signature := the same integers in another octet form (a token is signed until r, s or the RSA integer starts with a zero octet, which is then dropped; zero octets prepended / appended); signature := the same octets rearranged (whole / each half reversed, halves swapped, complemented, bit-reversed, rotated, one half doubled); tokens re-signed by another key that bring their own 'proof' along in the unprotected header (self-issued certificate as x5chain / x5bag, key id) or carry a keyless hash-as-signature with the well-known TF-M short-circuit key id, verified under the signer's key, nil and an empty key list; tokens with foreign payload / random signature / other key whose unprotected header is decorated with content type, key id, IV, CWT claims, countersignature slots or unknown labels (12 variants), and the same content-type parameter inside the protected header with the old signature; B's payload under a protected header that additionally carries a well-formed crit parameter (three variants) with A's / random / constant signatures; a modified token decoded from a buffer that the caller then overwrites in place with the genuine token before Verify; the payload re-serialised into other bytes of the same meaning (tags in front, non-minimal / indefinite map head, other key order, extra unknown key, bstr-wrapped) with the original protected header and signature; the protected header re-serialised into other bytes of the same meaning (non-minimal label / value / map head, indefinite map, extra label, tag) with the original payload and signature; and verification under every other key (same algorithm, other curve/type, nil, non-key values) and under malformed key objects of the right Go type (empty / short / long Ed25519 key, zero-value and nil ECDSA / RSA keys; a panic below the library is counted, a nil error is a violation). Oracle: decode+Verify may only succeed if the independent reader finds payload, protected-header content and signature byte-identical to the signed token and the key is the signer's (NO-VERDICT, counted), or if the independent stdlib verifier itself finds the signature valid for that content and key; Verify must never succeed without protected alg / payload / signature. distinct_nontrivial = distinct (algorithm, profile, mutation class, position bucket) signatures")
+	c.Rule("for each of ES256/384/512, EdDSA, PS256/384/512 with fresh keys x valid claims-sets of both profiles and a P2 extension, the token produced by the real ValidateAndSign is (1) accepted unmodified under the signer's key (positive control), then attacked - each mutant once through a fresh DecodeEvidenceFromCOSE and once through ONE REUSED Evidence object that has just decoded and verified the original token - with: every single-bit flip; every truncation; 1-8 trailing bytes; splices of protected/payload/signature between two tokens (same key/other payload, other key, other algorithm); signature := random bytes (same / other length), zeros, empty, signature of another message; 2-8 random byte substitutions, random insertions and deletions; algorithm moved to the unprotected header with a signature that is valid for that layout; empty protected header; protected header without label 1; nil payload with a signature valid over the empty payload; signature := well-formed DER ECDSA signatures (of nothing, of random integers, of another message); signature := the same integers in another octet form (a token is signed until r, s or the RSA integer starts with a zero octet, which is then dropped; zero octets prepended / appended); signature := the same octets rearranged (whole / each half reversed, halves swapped, complemented, bit-reversed, rotated, one half doubled); tokens re-signed by another key that bring their own 'proof' along in the unprotected header (self-issued certificate as x5chain / x5bag, key id) or carry a keyless hash-as-signature with the well-known TF-M short-circuit key id, verified under the signer's key, nil and an empty key list; tokens with foreign payload / random signature / other key whose unprotected header is decorated with content type, key id, IV, CWT claims, countersignature slots or unknown labels (12 variants), and the same content-type parameter inside the protected header with the old signature; B's payload under a protected header that additionally carries a well-formed crit parameter (three variants) with A's / random / constant signatures; an Evidence holding a modified token whose by-value copy then decodes the genuine one; the bare claims-set behind tags 601 / 602 / 61 / 55799 / 24 and untagged; a modified token decoded from a buffer that the caller then overwrites in place with the genuine token before Verify; the payload re-serialised into other bytes of the same meaning (tags in front, non-minimal / indefinite map head, other key order, extra unknown key, bstr-wrapped) with the original protected header and signature; the protected header re-serialised into other bytes of the same meaning (non-minimal label / value / map head, indefinite map, extra label, tag) with the original payload and signature; and verification under every other key (same algorithm, other curve/type, nil, non-key values) and under malformed key objects of the right Go type (empty / short / long Ed25519 key, zero-value and nil ECDSA / RSA keys; a panic below the library is counted, a nil error is a violation). Oracle: decode+Verify may only succeed if the independent reader finds payload, protected-header content and signature byte-identical to the signed token and the key is the signer's (NO-VERDICT, counted), or if the independent stdlib verifier itself finds the signature valid for that content and key; Verify must never succeed without protected alg / payload / signature. distinct_nontrivial = distinct (algorithm, profile, mutation class, position bucket) signatures")
 	if err := extprof.Register(extprof.ExtP2Name); err != nil {
 		c.Violation("harness/register", err.Error(), nil)
 		return
@@ -528,6 +528,35 @@ func runC02(c *mon.Ctx) {
 				c02Judge(c, "protected-decoration:original-signature", A, sign1Bytes(pb, nil, A.env.Payload, A.env.Signature), k.Pub, true, map[string]any{"header_variant": hi})
 			}
 			c.Sig(base + "|header-decorations")
+		}
+		// (5j) a by-value COPY of an Evidence is another Evidence: decoding the genuine
+		// token through the copy must not make the original (holding a tampered one) verify
+		{
+			m := append([]byte{}, A.tok...)
+			if off := bytes.Index(m, A.env.Payload); off >= 0 && len(A.env.Payload) > 8 {
+				m[off+len(A.env.Payload)/2] ^= 0x01
+				suspect := &psatoken.Evidence{}
+				c.Eval()
+				c.Count("mutants:struct-copied-evidence")
+				if suspect.UnmarshalCOSE(m) == nil {
+					work := *suspect //nolint:govet
+					_ = work.UnmarshalCOSE(append([]byte{}, A.tok...))
+					if suspect.Verify(k.Pub) == nil {
+						c.Violation("C02/tampered-verified/struct-copied-evidence/"+alg, "an Evidence holding a modified token verifies after a by-value copy of it decoded the genuine token", map[string]any{"mutant_hex": mon.Hex(m)})
+					} else {
+						c.Count("outcome:verify-rejected")
+					}
+				}
+			}
+			// the bare (unsigned) claims-set behind the tags EAT defines for unprotected claims
+			// sets and a few others: whatever the decoder makes of it, nothing verifies
+			for _, tg := range []uint64{601, 602, 61, 55799, 24} {
+				tok := refcbor.Encode(refcbor.Tagged(tg, refcbor.Raw(B.env.Payload)))
+				c02Judge(c, fmt.Sprintf("bare-claims-behind-tag-%d", tg), A, tok, k.Pub, true, nil)
+				c02Judge(c, fmt.Sprintf("bare-claims-behind-tag-%d:nil-key", tg), A, tok, nil, false, nil)
+			}
+			c02Judge(c, "bare-claims", A, B.env.Payload, k.Pub, true, nil)
+			c.Sig(base + "|copies-and-bare-claims")
 		}
 		// (5h) the caller's buffer is the caller's: a modified token is decoded from
 		// a buffer which is then overwritten, in place, with the genuine token
